@@ -29,7 +29,8 @@ filter on the listing); C11.2 the verbatim branch calls Server.restore(app,
 expires) under presence <= placement with both stamps converted from
 milliseconds without truncation, the stamp locals being identified by what
 they are read from; C11.4 force_set_identity takes the recorded identity
-unconditionally.
+unconditionally. Fourth round: C11.5 the stored listing is not modified while
+restore_placement walks it.
 Does NOT decide fidelity for all reachable stored states.
 """
 
